@@ -168,7 +168,7 @@ def run_chunk(chunk):
                 for cr in ('H', 'O'):
                     _do(res, [[['creator'], cr], [['comp'], (hi << 8) | lo], [['uh', 'comp'], (lo << 8) | hi],
                               [['sec', 0, 'comp'], (hi << 8) | lo], [['sec', 1, 'comp'], (lo << 8) | hi], [['sec', 2, 'comp'], (hi << 8) | lo]])
-        for c in range(128):
+        for c in range(256):
             for comp in (0x4142, 0x0041, 0x4100, 0x3100):
                 _do(res, [[['creator'], chr(c)], [['comp'], comp], [['uh', 'comp'], comp ^ 0x0303]])
     elif k == 'ts':
